@@ -52,6 +52,7 @@ func genLivingCase(prop, tier string, r *rand.Rand) *Case {
 	}
 	n := 1 + r.IntN(maxN)
 	nt := 0
+	maxAgeZero := r.IntN(6) == 0 // Document.MaxLivingAge = 0: nobody is dead without a death event
 	var people []*tokPerson
 	exactDate := func(y int) string {
 		return fmt.Sprintf("%d %s %d", 1+r.IntN(28), pick(r, months), y)
@@ -84,8 +85,9 @@ func genLivingCase(prop, tier string, r *rand.Rand) *Case {
 			tp.role = "dead-by-empty-death"
 			tp.year = ty - 30
 			tp.p.Events = append(tp.p.Events, Event{Tag: "BIRT", Date: exactDate(tp.year)}, Event{Tag: "DEAT"})
-		case 3: // dead by the age rule
+		case 3: // dead by the age rule (living when the age rule is switched off)
 			tp.role = "dead-by-age"
+			tp.living = maxAgeZero
 			tp.year = ty - 120 - r.IntN(100)
 			tp.p.Events = append(tp.p.Events, Event{Tag: "BIRT", Date: exactDate(tp.year), Place: tp.place})
 		case 4: // living by the age rule
@@ -113,6 +115,14 @@ func genLivingCase(prop, tier string, r *rand.Rand) *Case {
 			tp.year = ty - 20 - r.IntN(60)
 			tp.p.Events = append(tp.p.Events, Event{Tag: "BIRT", Date: exactDate(tp.year)},
 				Event{Tag: "RESI", Date: exactDate(tp.year + 10), Place: tp.place})
+		}
+		// an attribute with its own date and place
+		if r.IntN(4) == 0 {
+			y := tp.year
+			if y == 0 {
+				y = ty - 30
+			}
+			tp.p.Events = append(tp.p.Events, Event{Tag: pick(r, []string{"OCCU", "EDUC", "RELI"}), Date: exactDate(y + 1), Place: tp.place})
 		}
 		people = append(people, tp)
 	}
@@ -220,6 +230,7 @@ func genLivingCase(prop, tier string, r *rand.Rand) *Case {
 
 	c := &Case{Prop: prop, Engine: "publish", Docs: []string{g.Text(), g2.Text()}, Today: today}
 	cfg := &PublishCfg{Options: genPubOptions(r, []string{"hide", "placeholder"}), Jobs: pick(r, []int{1, 1, 2, 8})}
+	cfg.Options.MaxLivingAgeZero = maxAgeZero
 	for _, tp := range people {
 		li := LivingInfo{Ptr: tp.p.Ptr, Living: tp.living}
 		for k := range tp.given {
